@@ -39,7 +39,7 @@ def install(ctx):
 def cases(ctx):
     rng = ctx.rng
     for i in range(ctx.n(900, 4000)):
-        pos, neg, kind = gen.scores(rng, min_pos=1, min_neg=1, maxn=40)
+        pos, neg, kind = gen.scores(rng, min_pos=1, min_neg=1, maxn=40, big=bool(ctx.tier == "thorough" and rng.random() < 0.08))
         if rng.random() < 0.25:  # tiny sources: N = 1, 2, 3
             pos = pos[: int(rng.integers(1, 4))]
             neg = neg[: int(rng.integers(1, 4))]
